@@ -23,7 +23,7 @@ def corpus(tier: str, seed: int, per_dialect: Optional[int] = None) -> List[Tupl
     cap = MAXCHARS[tier]
     items = [(p, d) for p, d in sq.dialect_corpus() if os.path.getsize(p) <= cap]
     nd = len({d for _, d in items})
-    per = per_dialect or (5 if tier == "quick" else 32)
+    per = per_dialect or (5 if tier == "quick" else 12)
     return sq.stratified(items, lambda x: x[1], per * nd, seed)
 
 
@@ -48,6 +48,7 @@ ADJ = [
     "SELECT a FROM t ORDER BY - - a\n", "SELECT f(- - 1, - -a) FROM t\n", "SELECT a::int, b :: int FROM t\n", "SELECT a[1] , b [ 2 ] FROM t\n",
     "SELECT a AS\"b\" FROM t\n", "SELECT 1AS b\n", "SELECT a FROM t WHERE a IN(SELECT b FROM u)AND c=1\n", "SELECT *FROM t\n",
     "SELECT a,b FROM t WHERE a=1AND b=2\n", "SELECT a FROM t LIMIT 1OFFSET 2\n", "SELECT COUNT(*)AS c FROM t\n",
+    "SELECT COUNT(DISTINCT(a)) FROM t\n", "SELECT COUNT(DISTINCT(a + b)), SUM(DISTINCT(c)) FROM t\n",
 ]
 
 
@@ -68,7 +69,7 @@ def mutants_part(tier: str, seed: int) -> List[dict]:
     """Seeded corpus mutants: a unary sign right after a binary operator, whitespace squeezed/widened around
     operators and brackets (texts that still lex to the same code tokens are kept; the parse decides clean0)."""
     rnd = random.Random(seed * 7919 + 17)
-    files = corpus(tier, seed, per_dialect=3 if tier == "quick" else 12)
+    files = corpus(tier, seed, per_dialect=3 if tier == "quick" else 6)
     out = []
     for p, d in files:
         src = sq.read(p)
@@ -141,12 +142,12 @@ LAYOUT_VARIANTS: List[Tuple[str, dict]] = [
 
 
 def layoutcfg_part(tier: str, seed: int) -> List[dict]:
-    files = corpus(tier, seed, per_dialect=4 if tier == "quick" else 16)
+    files = corpus(tier, seed, per_dialect=4 if tier == "quick" else 8)
     out = []
     nv = len(LAYOUT_VARIANTS)
     for i, (p, d) in enumerate(files):
         src = sq.read(p)
-        ks = [(i + j) % nv for j in range(2 if tier == "quick" else 5)]
+        ks = [(i + j) % nv for j in range(2 if tier == "quick" else 4)]
         for k in ks:
             name, cfg = LAYOUT_VARIANTS[k]
             text = src
@@ -219,7 +220,7 @@ def _case_mutant(src: str, rnd: random.Random) -> str:
 def cap_part(tier: str, seed: int) -> List[dict]:
     rnd = random.Random(seed * 104729 + 5)
     inputs: List[Tuple[str, str, str]] = [(f"hand{i}", d, s) for i, (d, s) in enumerate(CAP_HAND)]
-    for p, d in corpus(tier, seed, per_dialect=2 if tier == "quick" else 10):
+    for p, d in corpus(tier, seed, per_dialect=2 if tier == "quick" else 5):
         src = sq.read(p)
         if len(src) > 3000:
             continue
@@ -235,8 +236,8 @@ def cap_part(tier: str, seed: int) -> List[dict]:
                        {"rules": {sect: {key: pol} for sect, key, _ in CP.values()}}))
     out = []
     for k, (name, d, src) in enumerate(inputs):
-        sel = combos if (tier == "thorough" or name.startswith("hand")) else \
-            [combos[(k * 5 + j * 7 + seed) % len(combos)] for j in range(6)]
+        sel = combos if name.startswith("hand") else \
+            [combos[(k * 5 + j * 7 + seed) % len(combos)] for j in range(6 if tier == "quick" else 12)]
         seen = set()
         for code, pol, cfg in sel:
             if (code, pol) in seen:
